@@ -12,6 +12,9 @@ E3  ... and every recorded step (action, thread, returned resource, number of qu
 E4  random controlled schedules of random well-formed, deadlock-free programs, sizes 1..4.
 E4f free-running executions (real threads, really blocking acquire()): invoke/response events
     validated by TLC against the API-level ResPoolFree.tla (rule R3).
+E4m the same with MANY simultaneously live user threads (4 x hardware threads + 8, at least 64) on one
+    small pool, taking strict turns so that acquire() must never block; afterwards all resources are
+    acquired at once and the pool is destroyed (drv_respool --many; see executeMany there).
 """
 import json
 import os
@@ -132,6 +135,27 @@ def free_stats(trace):
 
 
 
+def many_stats(trace):
+    """Pools, live threads and distinct releasing threads per pool in the many-thread rounds."""
+    pools, threads, rel = 0, [], []
+    try:
+        for line in open(trace):
+            try:
+                e = json.loads(line)
+            except ValueError:
+                continue
+            if e['e'] == 'Reset':
+                pools += 1
+                threads.append(e.get('threads', 0))
+                rel.append(set())
+            elif e['e'] == 'Rel' and rel:
+                rel[-1].add(e['t'])
+    except OSError:
+        pass
+    return {'pools': pools, 'live_threads_min': min(threads or [0]), 'live_threads_max': max(threads or [0]),
+            'distinct_releasing_threads_min': min([len(r) for r in rel] or [0])}
+
+
 def usable(trace):
     """A driver that crashed may leave a truncated last line: drop it (the crash itself has been
     reported); returns False when nothing is left to validate."""
@@ -189,19 +213,39 @@ def run(ctx):
 
     # E4f: free-running, API-level ---------------------------------------------------------------
     n = 4000 if thorough else 500
-    tr = os.path.join(ctx.work, 'free.ndjson')
-    tot, _ = ctx.driver(exe, ['--out', tr, '--free', n, '--seed', ctx.seed], WHAT,
+    tr_free = os.path.join(ctx.work, 'free.ndjson')
+    tot, _ = ctx.driver(exe, ['--out', tr_free, '--free', n, '--seed', ctx.seed], WHAT,
                         label='free-running, sizes 1..4')
+    execs = tot.get('completed', 0)
+    # E4m: the property holds for every number of user threads, but E2-E4f use 2..4 of them.  The pool
+    # keeps its resources in a queue with per-thread (producer) state, so "many more live threads than
+    # resources / hardware threads" is a class of its own: rounds of >= 64 live threads taking strict turns
+    # (never more than `hold` <= size handles live, so a correct acquire() cannot block; a blocked one is a
+    # Hang record, which ResPoolFree never accepts), then all resources at once, then ~ResourcePool.
+    tr_many = os.path.join(ctx.work, 'many.ndjson')
+    tot, _ = ctx.driver(exe, ['--out', tr_many, '--many', 12 if thorough else 4, '--seed', ctx.seed], WHAT,
+                        label='many-threads')
+    execs += tot.get('completed', 0)
+    ctx.cov['many_threads'] = many_stats(tr_many)
+    tr = os.path.join(ctx.work, 'free_all.ndjson')
+    with open(tr, 'wb') as o:
+        for p in (tr_free, tr_many):
+            if usable(p):
+                with open(p, 'rb') as f:
+                    shutil.copyfileobj(f, o)
     if usable(tr):
-        ctx.validate(SPEC, 'ResPoolFree.tla', 'ResPoolFree.cfg', tr, WHAT, executions=tot.get('completed', 0),
-                     label='free-running invoke/response')
-        ctx.cov['free_running'] = free_stats(tr)
-    ctx.sample_trace(tr, 10)
+        ctx.validate(SPEC, 'ResPoolFree.tla', 'ResPoolFree.cfg', tr, WHAT, executions=execs,
+                     label='free-running invoke/response (random programs + many-thread rounds)')
+        ctx.cov['free_running'] = free_stats(tr_free) if usable(tr_free) else {}
+    ctx.sample_trace(tr_free, 10)
+    ctx.sample_trace(tr_many, 8)
     ctx.assumptions += [
         'moodycamel::BlockingConcurrentQueue is a linearizable black box: every queue call is one step, '
         'no schedule points inside it',
         'controlled runs never let wait_dequeue block: the driver polls availability at the Acquire point and '
         'runs acquire() to completion in the same step; the really blocking path is exercised free-running only',
+        'many-thread rounds: thread count is 4 x hardware threads + 8 (at least 64); a defect that needs more '
+        'live threads than that is not seen',
         'handles are not passed between threads; every handle is destroyed before the pool (documented precondition)',
         'programs are deadlock-free by construction (sum over threads of (max handles held - 1) < size)',
         'TLC, the JSON/IOUtils community modules and g++ are trusted',
